@@ -205,7 +205,7 @@ class P11(H.Projector):
 
   def _partial_items(self, p):
     func, args, kws = p.func, p.args, dict(p.keywords)
-    if isinstance(func, af_lib._InvokeArgFactoryWrapper):  # pylint: disable=protected-access
+    if af_lib.is_arg_factory_partial(p) and hasattr(func, 'func'):   # arg_factory.partial wraps the callable
       func = func.func
     fid = H.fn_id_of(func)
     names = list(inspect.signature(func).parameters)
@@ -214,7 +214,7 @@ class P11(H.Projector):
     items = []
     for nm in sorted(bound, key=lambda n: str(H._slot_of(n))):  # pylint: disable=protected-access
       v = bound[nm]
-      if isinstance(v, (af_lib.ArgFactory, partial_lib._BuiltArgFactory)):  # pylint: disable=protected-access
+      if isinstance(v, af_lib.ArgFactory) or (type(v).__name__.endswith('ArgFactory') and hasattr(v, 'factory')):
         fac = v.factory
         idx = len(self.heap) + 1
         node = {'k': 'argfactory', 'fn': 0, 'items': []}
